@@ -820,4 +820,46 @@ theorem molalityResidual_round_trip (t p m : ℝ) (ht0 : 20 ≤ t) (ht1 : t ≤ 
   ring
 
 
+/-! ### the complex drag near a surface as a function of the bead radius -/
+
+/-- the complex drag near a surface as a function of the bead radius, at the bead's own Stokes drag
+    (`κ = f π ρ / η`, so `f/f_ν = κR²`, `√(f/f_ν) = R√κ`, `ε = (2l − R)√κ`) -/
+noncomputable def surfaceDragOfRadius (kappa l R : ℝ) : ℝ × ℝ :=
+  let S := R * Real.sqrt kappa
+  let r := kappa * R ^ 2
+  let er := (2 * l - R) * Real.sqrt kappa
+  let q := 9 / 16 * (R / l)
+  let innerRe := 1 - S / 3 - 4 / 3 * (1 - Real.exp (-er) * Real.cos er)
+  let innerIm := S / 3 + 2 / 9 * r + 4 / 3 * (Real.exp (-er) * Real.sin er)
+  let d1 := 1 - q * innerRe
+  let d2 := -(q * innerIm)
+  let s1 := 1 + S
+  let s2 := -S - 2 / 9 * r
+  ((s1 * d1 + s2 * d2) / (d1 * d1 + d2 * d2), (s2 * d1 - s1 * d2) / (d1 * d1 + d2 * d2))
+
+theorem surfaceDragNN_of_radius (f eta rho l R : ℝ) (hf : 0 ≤ f) (heta : 0 < eta) (hrho : 0 < rho) (hR : 0 < R) :
+    surfaceDragNN (eta / (Real.pi * rho * R ^ 2)) R l f = surfaceDragOfRadius (f * (Real.pi * rho) / eta) l R := by
+  have hpi := Real.pi_pos
+  have hk : 0 ≤ f * (Real.pi * rho) / eta := by positivity
+  have hr : f / (eta / (Real.pi * rho * R ^ 2)) = f * (Real.pi * rho) / eta * R ^ 2 := by field_simp
+  have hS : Real.sqrt (f / (eta / (Real.pi * rho * R ^ 2))) = R * Real.sqrt (f * (Real.pi * rho) / eta) := by
+    rw [hr, Real.sqrt_mul hk, Real.sqrt_sq hR.le, mul_comm]
+  simp only [surfaceDragNN, surfaceDragOfRadius, hS]
+  simp only [hr]
+  have he : (2 * l - R) * (R * Real.sqrt (f * (Real.pi * rho) / eta)) / R
+      = (2 * l - R) * Real.sqrt (f * (Real.pi * rho) / eta) := by field_simp
+  rw [he]
+
+theorem surfaceDragOfRadius_zero (kappa l : ℝ) : surfaceDragOfRadius kappa l 0 = (1, 0) := by
+  simp [surfaceDragOfRadius]
+
+theorem surfaceDragOfRadius_continuousAt (kappa l : ℝ) : ContinuousAt (surfaceDragOfRadius kappa l) 0 := by
+  unfold surfaceDragOfRadius
+  apply ContinuousAt.prodMk
+  · apply ContinuousAt.div (by fun_prop) (by fun_prop)
+    norm_num
+  · apply ContinuousAt.div (by fun_prop) (by fun_prop)
+    norm_num
+
+
 end Verif.C20
